@@ -108,6 +108,7 @@ Section Shape.
     match em_val m with
     | CStr s => JStr s
     | CBool b => JBool b
+    | CFloat s => JNum s          (* the decimal form of the float64 value *)
     | _ => JNum (em_exact m)
     end.
 
